@@ -1,4 +1,5 @@
 import JjModel.Model.GitBackend
+import JjModel.Model.CommitHash
 import JjModel.Drv.C16
 /-!
   Driver handler for C17.
@@ -7,7 +8,7 @@ import JjModel.Drv.C16
         `ok <cls> R <returned commit> B <read-back commit>` | `err:<kind>` | `panic`
       (`cls` = index of the earliest write of the request that got the same id; the read happens
        after all writes, as the harness reads through a freshly loaded backend)
-  `C17 simple <commit>` → `ok R <returned> B <read-back>` | `err:<kind>` | `panic`
+  `C17 simple <commit>` → `ok H <hashed bytes of the returned commit> R <returned> B <read-back>` | `err:<kind>` | `panic`
 
   commit := P n id{n} Q n id{n} T n id{n} L n label{n} C changeid D desc A name email ms tz K name email ms tz
   (in a read-back commit the change id is `syn` when it was synthesised from the commit id)
@@ -93,7 +94,7 @@ def handle : List String → Option String
         let back := match simpleRead p with
           | .ok b => showCommit b
           | .error e => showErr e
-        some (sp ["ok", "R", showCommit returned, "B", back])
+        some (sp ["ok", "H", showHex (encCommit returned), "R", showCommit returned, "B", back])
   | _ => none
 
 end JjModel.Drv.C17
